@@ -7,6 +7,10 @@ import json, os, re, subprocess, sys, time
 
 ROOT = os.path.dirname(os.path.dirname(os.path.abspath(__file__)))
 TARGETS = {
+    "C15-4A": ["C15", "C16"], "C15-4B": ["C15"], "C01-4A": ["C01", "C16", "C15"], "C01-4B": ["C01", "C02", "C17"], "C12-4A": ["C12"], "C12-4B": ["C12", "C15"],
+    "C05-4A": ["C05", "C07"], "C05-4B": ["C05", "C07"], "C18-4A": ["C18"], "C18-4B": ["C18", "C03"], "C19-4A": ["C19"], "C19-4B": ["C19", "C17"],
+    "C17-4A": ["C17", "C02"], "C17-4B": ["C17", "C02"], "C16-4A": ["C16"], "C16-4B": ["C16", "C18"], "C10-4A": ["C10", "C09"], "C10-4B": ["C10"],
+    "C09-4A": ["C09"], "C09-4B": ["C09", "C10"], "C02-4A": ["C02"], "C02-4B": ["C02", "C17"], "C03-4A": ["C03"], "C03-4B": ["C03"],
     "revert-d425be7": ["C12"], "revert-c0cea22": ["C02"], "revert-221b768": ["C02"], "revert-716f3b8": ["C18"], "revert-e1d1b05": ["C03"],
     "revert-13cbc3c": ["C06", "C04"], "revert-a5a64b9": ["C14", "C04"], "revert-f763528": ["C09", "C10", "C04"], "revert-1e8145f": ["C09"], "revert-4629932": ["C09"],
     "revert-47ccb3d-global-extractors": ["C13"], "revert-a74582e-casefold": ["C13"], "revert-8633444": ["C15"], "revert-3f213ac": ["C14"], "revert-6039c69": ["C17"],
